@@ -183,10 +183,40 @@ pub fn service_strategy(idx: usize) -> BoxedStrategy<Service> {
         proptest::option::weighted(0.7, prop_oneof![8 => ty_strategy(), 1 => Just(Ty::Unit)]),
         any::<bool>(),
         prop_oneof![6 => Just(0u8), 2 => Just(1u8), 1 => Just(2u8)],
+        // sibling: take an earlier method's argument list (same names), permuted, optionally with all types equal
+        proptest::option::weighted(0.2, (any::<u16>(), any::<u8>())),
     )
-        .prop_map(|(name, args, ret, doc, cfg)| Method { name, args: args.into_iter().map(|(name, ty)| Arg { name, ty }).collect(), ret, doc, cfg });
+        .prop_map(|(name, args, ret, doc, cfg, sib)| (Method { name, args: args.into_iter().map(|(name, ty)| Arg { name, ty }).collect(), ret, doc, cfg }, sib));
     (proptest::collection::vec(method, 1..=8), 0u8..5, proptest::bool::weighted(0.35), 0u8..4)
-        .prop_map(move |(mut methods, derive, over_channel, name_style)| {
+        .prop_map(move |(methods, derive, over_channel, name_style)| {
+            let sibs: Vec<Option<(u16, u8)>> = methods.iter().map(|m| m.1).collect();
+            let mut methods: Vec<Method> = methods.into_iter().map(|m| m.0).collect();
+            for mi in 1..methods.len() {
+                let Some((sel, perm)) = sibs[mi] else { continue };
+                let src = ((sel as usize) * mi) >> 16;
+                let mut args = methods[src].args.clone();
+                if args.len() < 2 {
+                    continue;
+                }
+                if perm & 1 == 0 {
+                    args.reverse();
+                } else {
+                    let k = 1 + (perm as usize >> 3) % (args.len() - 1);
+                    args.rotate_left(k);
+                }
+                if perm & 4 != 0 {
+                    // same type everywhere: a permutation of the names then still type-checks at every position
+                    let t = args[0].ty;
+                    for a in args.iter_mut() {
+                        a.ty = t;
+                    }
+                    let ret = methods[src].ret;
+                    let src_args: Vec<Arg> = methods[src].args.iter().map(|a| Arg { name: a.name.clone(), ty: t }).collect();
+                    methods[src].args = src_args;
+                    methods[mi].ret = ret;
+                }
+                methods[mi].args = args;
+            }
             // construction, not rejection: make names valid and collision-free
             let mut seen_variants = BTreeSet::new();
             let mut seen_idents = BTreeSet::new();
